@@ -26,7 +26,7 @@ def py_class(a, braces=True):
     for it, j, br in sites:
         inner = [b for u in G.items_in_order(br['c']) for b in u['br']]
         anchor0 = it is a[0] and mval(it) <= 1
-        if mval(br) >= 2 and inner and (mval(br) >= 3 or anchor0 or len(inner) >= 2 or any(b['m'] is not None for b in inner)):
+        if mval(br) >= 2 and inner and (mval(br) >= 3 or anchor0 or j > 0 or len(inner) >= 2 or any(b['m'] is not None for b in inner)):
             return 5
     def stale(chain, anc, total):
         for it in chain:
